@@ -15,6 +15,12 @@
 (*           are clamped, everything else has positive probability)        *)
 (*  repro    two runs with the same seed returned identical frames         *)
 (*  gibbs    one Gibbs transition kernel entry                             *)
+(*  sweep    GibbsSampling.sample: row i+1 = row i updated by the logged    *)
+(*           draws, each drawn from the full conditional given the CURRENT *)
+(*           state of the chain (the draws' kernels are gibbs events)      *)
+(*  partial  forward_sample / simulate with partial_samples: given columns *)
+(*  missing  simulate(include_missing=True) frame                          *)
+(*  xrepro   same call, same seed, other PYTHONHASHSEED: same frame        *)
 (* Spec: the ancestral-sampling machine draws node n of a row from exactly *)
 (* the CPD column of the row's sampled parent states; states of            *)
 (* probability zero never occur; rejection/likelihood-weighted rows agree  *)
@@ -71,10 +77,26 @@ Check(e) ==
          IF \E k \in ToSet(e.counts) : \E i \in 1..BCard(b, e.node) :
                ~SixSigma(k.c[i], k.n, CPDNum(b, e.node, k.pa @@ (e.node :> b.states[e.node][i])), CPDDen(b, e.node))
          THEN Fail("freq.six_sigma") ELSE <<>>
+    \* partial_samples: the supplied columns come back as given, row by row (position i of the frame = position i of the input,
+    \* whatever index labels the input frame carries); the other columns are sampled given them (kernels / frame events)
+    [] e.ev = "partial" ->
+         IF Len(e.rows) # e.size THEN Fail("partial.row_count")
+         ELSE IF \E c \in DOMAIN e.given : \E i \in 1..Len(e.rows) : e.rows[i][c] # e.given[c][i]
+              THEN Fail("partial.columns_not_as_given")
+         ELSE <<>>
+    \* simulate(include_missing=True): every entry is a state of its column or the missing marker
+    [] e.ev = "missing" ->
+         IF Len(e.rows) # e.size THEN Fail("frame.row_count")
+         ELSE IF \E r \in ToSet(e.rows) : \E v \in DOMAIN r : r[v] \notin ToSet(b.states[v]) \cup {"NaN"} THEN Fail("missing.invalid_entry")
+         ELSE <<>>
+    \* the same call with the same seed in a process with another PYTHONHASHSEED returned the same frame (compared per column name)
+    [] e.ev = "xrepro" -> IF e.same THEN <<>> ELSE Fail("repro.differs_across_hash_seeds")
     [] e.ev = "raised" -> Fail("sampler.raises")
     [] e.ev = "repro" -> IF e.same THEN <<>> ELSE Fail("repro.same_seed_differs")
     [] e.ev = "gibbs" ->
          IF [i \in 1..Len(e.p) |-> <<e.p[i][1], e.p[i][2]>>] = FullCond(e.var, e.others) THEN <<>> ELSE Fail("gibbs.not_full_conditional")
+    \* one sweep of the Gibbs chain: the next returned row is the state reached by the logged draws (each draw's kernel is a "gibbs" event)
+    [] e.ev = "sweep" -> IF e.after = e.state THEN <<>> ELSE Fail("gibbs.chain_row_not_the_drawn_state")
     [] OTHER -> Fail("unknown_event")
 
 Init == tid \in 1..Len(Traces) /\ l = 1 /\ verdict = <<>>
